@@ -101,7 +101,7 @@ class Trace:
         if line.startswith("storage"):
             return i
         is_call = line.startswith("call")
-        ep = None
+        ep = "deploy" if line.startswith("deploy") else None
         if is_call:
             c = parse_call_line(line)
             ep = c["ep"]
